@@ -291,7 +291,7 @@ def gen_C18(rnd, n, tier):
         x = rnd.random()
         if x < 0.55:
             tg = TopGen(rnd, tier); src = tg.gen(rnd.randint(1, 3))
-            for _ in range(rnd.choice([1, 1, 2, 3])): src = mutate(src, rnd)
+            for _ in range(rnd.choice([0, 0, 1, 1, 2, 3])): src = mutate(src, rnd)     # well-formed programs are inputs too
         elif x < 0.7:
             from cases_data import Pory
             src = Pory(rnd).program()[0]
